@@ -39,7 +39,7 @@ SUBSCHEMA_ONE = ("additionalProperties", "additionalItems", "not", "if", "then",
 FORBIDDEN = {
     "2019-09": {"prefixItems"},
     "draft-07": {"prefixItems", "$defs", "dependentRequired", "dependentSchemas", "unevaluatedProperties", "unevaluatedItems"},
-    "oas3.0": {"prefixItems", "$defs", "definitions", "dependentRequired", "dependencies", "unevaluatedProperties", "unevaluatedItems", "additionalItems", "const", "examples", "$schema", "patternProperties_"},
+    "oas3.0": {"prefixItems", "$defs", "definitions", "dependentRequired", "dependencies", "unevaluatedProperties", "unevaluatedItems", "additionalItems", "const", "examples", "$schema", "patternProperties_", "propertyNames"},
     "oas3.1": set(),
 }
 PREFIX = {"2019-09": "#/$defs/", "draft-07": "#/definitions/", "oas3.0": "#/components/schemas/", "oas3.1": "#/components/schemas/"}
@@ -49,7 +49,7 @@ VERSIONS = {
     "oas3.0": JsonSchemaVersion.OPEN_API_3_0,
     "oas3.1": JsonSchemaVersion.OPEN_API_3_1,
 }
-OAS30_DROPPED = ("dependentRequired", "unevaluatedProperties", "additionalItems")
+OAS30_DROPPED = ("dependentRequired", "unevaluatedProperties", "additionalItems", "propertyNames")
 
 
 def walk_schema(s: Any, fn: Callable[[dict, tuple], None], path=()):
